@@ -108,3 +108,48 @@ theorem elems_left_to_right (es : List Expr) (env : Nat) (s s' : St) (vs : List 
     exact ⟨f + 1, by rw [evalE]; simp [bindM, hf, pureM]⟩
 
 end Pangaea.C08
+
+namespace Pangaea.C08
+open Pangaea.Core Pangaea.C07
+
+/-- **Order of a call.** Whenever a property call ends with a value or an error OF THE CALLEE, its evaluation went
+    through these stages in this order, each starting in the state the previous one ended in: the receiver, the
+    chain argument, the positional arguments (with `*` / `**` unpacked in place), the keyword arguments, and only
+    then the call itself. -/
+theorem call_order (fuel : Nat) (recv : Option Expr) (m : Main) (a : Add) (ca : Option Expr) (prop : String)
+    (args : List Expr) (kws : List KwE) (env : Nat) (s s' : St) (v : Val)
+    (h : evalE (fuel + 1) (.propCall recv m a ca prop args kws) env s = (.ok v, s')) :
+    ∃ vr s0 vc s1 vargs unpacked s2 vkws s3,
+      evalRecv fuel recv env s = (.ok vr, s0) ∧
+      evalOpt fuel ca env s0 = (.ok vc, s1) ∧
+      evalArgs fuel args env [] [] s1 = (.ok (vargs, unpacked), s2) ∧
+      evalKws fuel kws env [] s2 = (.ok vkws, s3) ∧
+      propChain fuel m a vr vc prop vargs (addAllFirst vkws unpacked) env s3 = (.ok v, s') := by
+  rw [evalE] at h
+  unfold bindM at h
+  rcases h0 : evalRecv fuel recv env s with ⟨r0, s0⟩
+  rw [h0] at h
+  cases r0 with
+  | ok vr =>
+    simp only at h
+    rcases h1 : evalOpt fuel ca env s0 with ⟨r1, s1⟩
+    rw [h1] at h
+    cases r1 with
+    | ok vc =>
+      simp only at h
+      rcases h2 : evalArgs fuel args env [] [] s1 with ⟨r2, s2⟩
+      rw [h2] at h
+      cases r2 with
+      | ok p =>
+        obtain ⟨vargs, unpacked⟩ := p
+        simp only at h
+        rcases h3 : evalKws fuel kws env [] s2 with ⟨r3, s3⟩
+        rw [h3] at h
+        cases r3 with
+        | ok vkws => exact ⟨vr, s0, vc, s1, vargs, unpacked, s2, vkws, s3, rfl, h1, h2, h3, h⟩
+        | _ => simp at h
+      | _ => simp at h
+    | _ => simp at h
+  | _ => simp at h
+
+end Pangaea.C08
